@@ -29,6 +29,8 @@ def T_enum(n): return ("enum", n)
 def T_list(t): return ("list", t)
 def T_tuple(ts): return ("tuple", tuple(ts))
 def T_dict(k, v): return ("dict", k, v)
+PS, PL = "PauliString", "label"
+OBJ, BITS, GI = "obj", "bits", "gi"
 MORPH = ("morph",)      # a Morph object = its legs : list (list V)
 
 def coq_type(t):
@@ -36,6 +38,11 @@ def coq_type(t):
     if t == B: return "bool"
     if t == STR: return "pystr"
     if t == "V": return "V"
+    if t == PS: return "pstr"
+    if t == PL: return "pl"
+    if t == OBJ: return "obj"
+    if t == BITS: return "(list bool)"
+    if t == GI: return "gi"
     if t == MORPH: return "(list (list V))"
     if t[0] == "enum": return t[1]
     if t[0] == "list": return "(list %s)" % coq_type(t[1])
@@ -47,6 +54,10 @@ def default(t, enums):
     if t == Z: return "0"
     if t == B: return "false"
     if t == STR: return "[]"
+    if t == PS: return "[]"
+    if t == BITS: return "[]"
+    if t == OBJ: return "(fresh_bits [])"
+    if t == GI: return "(0, 0)"
     if t == MORPH: return "[]"
     if t[0] == "enum": return "%s_%s" % (t[1], enums[t[1]][0])
     if t[0] in ("list", "dict"): return "[]"
@@ -85,6 +96,8 @@ class Fn:
             if isinstance(e.value, str): return ("[]" if e.value == "" else "[TS \"%s\"%%string]" % self.lit(e, e.value)), STR, []
             bad(e, "constant %r" % (e.value,))
         if isinstance(e, ast.Name):
+            if e.id in getattr(self, "params", {}) and (e.id not in env or e.id not in self.vars):
+                return "v_" + e.id, self.params[e.id], []
             if e.id not in env: bad(e, "name %s is not definitely assigned here" % e.id)
             return "v_" + e.id, self.vars[e.id], []
         if isinstance(e, ast.Attribute):
@@ -97,6 +110,9 @@ class Fn:
                 return "self", T_list(MORPH), []
             bad(e, "attribute")
         if isinstance(e, ast.Call):
+            x = self.expr_extra(e, env)
+            if x is not None:
+                return x
             if isinstance(e.func, ast.Name) and e.func.id == "len" and len(e.args) == 1 and not e.keywords:
                 c, t, g = self.expr(e.args[0], env)
                 if t[0] != "list" and t != MORPH: bad(e, "len of a non-list")
@@ -127,6 +143,9 @@ class Fn:
                 bad(e, "call of %s inside an expression" % fn.name)
             bad(e, "call")
         if isinstance(e, ast.BinOp):
+            x = self.expr_extra(e, env)
+            if x is not None:
+                return x
             a, ta, ga = self.expr(e.left, env)
             b, tb, gb = self.expr(e.right, env)
             if ta == Z and tb == Z:
@@ -141,6 +160,11 @@ class Fn:
                     return "(%s ^ %s)" % (a, b), Z, ga + gb + g
             bad(e, "binary operator on %r, %r" % (ta, tb))
         if isinstance(e, ast.Compare):
+            if len(e.ops) == 2 and all(isinstance(o, (ast.Lt, ast.LtE)) for o in e.ops):
+                parts = [self.expr(v, env) for v in [e.left] + e.comparators]
+                if any(t != Z for _, t, _ in parts) or any(g for _, _, g in parts): bad(e, "chained comparison of non-int or guarded operands")
+                sym = lambda o: "<?" if isinstance(o, ast.Lt) else "<=?"
+                return "((%s %s %s) && (%s %s %s))" % (parts[0][0], sym(e.ops[0]), parts[1][0], parts[1][0], sym(e.ops[1]), parts[2][0]), B, []
             if len(e.ops) != 1: bad(e, "chained comparison")
             a, ta, ga = self.expr(e.left, env)
             b, tb, gb = self.expr(e.comparators[0], env)
@@ -185,7 +209,20 @@ class Fn:
                 else:
                     bad(v, "f-string piece")
             return "[" + "; ".join(toks) + "]", STR, gs
+        x = self.expr_extra(e, env)
+        if x is not None:
+            return x
         bad(e, "expression")
+
+    def expr_extra(self, e, env):
+        return None
+
+    def iterable(self, it, env):
+        if isinstance(it, ast.Call) and isinstance(it.func, ast.Name) and it.func.id == "range" and len(it.args) == 1 and not it.keywords:
+            c, t, g = self.expr(it.args[0], env)
+            if t != Z: bad(it, "range of non-int")
+            return "(pyrange %s)" % c, T_list(Z), g
+        return self.expr(it, env)
 
     def lit(self, node, s):
         if any(ch in s for ch in '"\\\n') or not s.isascii(): bad(node, "string literal")
@@ -219,6 +256,8 @@ class Fn:
 
     def state(self):
         return ["v_" + v for v in self.vars]
+    def state_type(self):
+        return "(" + " * ".join(coq_type(t) for t in self.vars.values()) + ")" if self.vars else "unit"
 
     # ---------- statements ----------
     def block(self, stmts, env, k):
@@ -284,6 +323,13 @@ class Fn:
                 return self.guard(kg, "(match dict_get v_%s %s with None => Raised EKey | Some cur_ => %s end)" % (
                     d, kc, self.guard(g, "(let v_%s := dict_set v_%s %s (cur_ + %s) in %s)" % (d, d, kc, c, self.block(rest, env, k)))))
             bad(s, "augmented assignment")
+        if isinstance(s, ast.If) and self.method_call(s.test) is not None and not self.method_call(s.test)[1].pure:
+            obj, fn = self.method_call(s.test)
+            if fn.ret != B: bad(s, "if on a non-bool call")
+            a = self.block(s.body, env, None)
+            b = self.block(s.orelse, env, None)
+            cont = self.block(rest, self.after_if(s, env), k)
+            return "(bindr (%s %s) (fun c_ => seqo (if c_ then %s else %s) (fun %s => %s)))" % (fn.coq, obj, a, b, pat(self.state()), cont)
         if isinstance(s, ast.If):
             c, t, g = self.test(s.test, env)
             if t != B: bad(s, "if on non-bool")
@@ -302,7 +348,7 @@ class Fn:
                 self.declare(i, Z, s); self.declare(x, t[1], s)
                 names, iter_c = [i, x], "(enumerate %s)" % c
             elif isinstance(s.target, ast.Name):
-                c, t, g = self.expr(it, env)
+                c, t, g = self.iterable(it, env)
                 if t[0] != "list": bad(s, "loop over a non-list")
                 self.declare(s.target.id, t[1], s)
                 names, iter_c = [s.target.id], c
@@ -318,7 +364,7 @@ class Fn:
         if isinstance(s, ast.Continue):
             return "Cont %s" % tup(self.state())
         if isinstance(s, ast.Raise):
-            if isinstance(s.exc, ast.Call) and isinstance(s.exc.func, ast.Name) and s.exc.func.id in self.tr.exns:
+            if isinstance(s.exc, ast.Call) and isinstance(s.exc.func, ast.Name) and s.exc.func.id in list(self.tr.exns) + ["ValueError"]:
                 return "Raised (EUser \"%s\"%%string)" % s.exc.func.id
             bad(s, "raise")
         if isinstance(s, ast.Return):
@@ -330,14 +376,20 @@ class Fn:
             if m is not None and not m[1].pure:
                 obj, fn = m
                 self.set_ret(fn.ret, s)
-                return "(bindr (%s %s) (fun r_ => Ret r_))" % (fn.coq, obj)
+                return "(retcall (%s %s))" % (fn.coq, obj)
             sp = self.special_return(s, env)
             if sp is not None:
                 return sp
             c, t, g = self.expr(s.value, env)
             self.set_ret(t, s)
             return self.guard(g, "Ret %s" % c)
+        x = self.stmt_extra(s, rest, env, k)
+        if x is not None:
+            return x
         bad(s, "statement")
+
+    def stmt_extra(self, s, rest, env, k):
+        return None
 
     def special_return(self, s, env):
         """the one string-building return of get_algebra: "+".join([key if v == 1 else str(v) + "*" + key for key, v in D.items()])
@@ -441,8 +493,8 @@ class Fn:
         if self.ret is None: bad(self.node, "no return type")
         nested = "".join("let f_%s := fun %s => %s in\n  " % (n, " ".join("(v_%s : Z)" % p for p in ps), c) for n, (ps, c, _) in self.nested.items())
         inits = "".join("let v_%s : %s := %s in " % (v, coq_type(t), default(t, self.tr.enums)) for v, t in self.vars.items())
-        return ("(* %s.%s, lines %d-%d; state = (%s) *)\nDefinition %s (self : %s) : fres %s :=\n  %s%sfinish (%s)." % (
-            self.cls, self.name, self.node.lineno, self.node.end_lineno, ", ".join(self.vars), self.coq, coq_type(self.self_t), coq_type(self.ret), nested, inits, term))
+        return ("(* %s.%s, lines %d-%d; state = (%s) *)\nDefinition %s (self : %s) : fres %s :=\n  %s%s@finish %s _ (%s)." % (
+            self.cls, self.name, self.node.lineno, self.node.end_lineno, ", ".join(self.vars), self.coq, coq_type(self.self_t), coq_type(self.ret), nested, inits, self.state_type(), term))
 
 
 class Translator:
@@ -494,11 +546,342 @@ class Translator:
         return "\n".join(out)
 
 
+class ModFn(Fn):
+    """a module-level function of pauli_compiler.py; library primitives are mapped to the model's definitions (trusted contracts):
+    get_identity(n) = identity n; get_single(n, i, "L") = identity with letter L at site i (0 <= i < n, IndexError otherwise);
+    get_pauli_string("L" * k) = k letters L; a.tensor(b) = concatenation"""
+    def __init__(self, tr, node):
+        Fn.__init__(self, tr, None, node)
+        self.coq = "py_" + node.name.lstrip("_")
+        self.params = {}
+        for a in node.args.args:
+            self.params[a.arg] = self.ann_type(a.annotation, a)
+        self.self_t = None
+
+    def ann_type(self, a, node):
+        txt = ast.unparse(a) if a is not None else None
+        tbl = {"int": Z, "bool": B, "PauliString": PS, "list[PauliString]": T_list(PS)}
+        if txt not in tbl: bad(node, "annotation %r" % txt)
+        return tbl[txt]
+
+    def label(self, e):
+        if isinstance(e, ast.Constant) and e.value in ("I", "X", "Y", "Z"):
+            return "P" + e.value
+        bad(e, "Pauli label must be a one-letter literal")
+
+    def to_nat(self, c):
+        return "(Z.to_nat %s)" % c
+
+    def expr_extra(self, e, env):
+        if isinstance(e, ast.Call) and not e.keywords:
+            f = e.func
+            if isinstance(f, ast.Name) and f.id == "get_identity" and len(e.args) == 1:
+                c, t, g = self.expr(e.args[0], env)
+                if t != Z: bad(e, "get_identity of non-int")
+                return "(identity %s)" % self.to_nat(c), PS, g
+            if isinstance(f, ast.Name) and f.id == "get_single" and len(e.args) == 3:
+                n, tn, gn = self.expr(e.args[0], env)
+                i, ti, gi_ = self.expr(e.args[1], env)
+                if tn != Z or ti != Z: bad(e, "get_single arguments")
+                return ("(get_single %s %s %s)" % (self.to_nat(n), self.to_nat(i), self.label(e.args[2])), PS,
+                        gn + gi_ + [("((0 <=? %s) && (%s <? %s))" % (i, i, n), "Raised EIndex")])
+            if isinstance(f, ast.Name) and f.id == "get_pauli_string" and len(e.args) == 1:
+                a = e.args[0]
+                if isinstance(a, ast.BinOp) and isinstance(a.op, ast.Mult) and isinstance(a.left, ast.Constant):
+                    c, t, g = self.expr(a.right, env)
+                    if t != Z: bad(e, "string repetition count")
+                    return "(repeat %s %s)" % (self.label(a.left), self.to_nat(c)), PS, g
+                bad(e, "get_pauli_string of anything but \"L\" * k")
+            if isinstance(f, ast.Attribute) and f.attr == "tensor" and len(e.args) == 1:
+                a, ta, ga = self.expr(f.value, env)
+                b, tb, gb = self.expr(e.args[0], env)
+                if ta != PS or tb != PS: bad(e, "tensor of non-PauliStrings")
+                return "(%s ++ %s)" % (a, b), PS, ga + gb
+            if isinstance(f, ast.Name) and f.id in self.tr.fns:
+                fn = self.tr.fns[f.id]
+                if not fn.pure: bad(e, "call of %s inside an expression" % f.id)
+                if len(e.args) != len(fn.params): bad(e, "arity")
+                cs, gs = [], []
+                for a, (pn, pt) in zip(e.args, fn.params.items()):
+                    c, t, g = self.expr(a, env)
+                    if t != pt: bad(a, "argument type")
+                    cs.append(c); gs += g
+                return "(%s %s)" % (fn.coq, " ".join(cs)), fn.ret, gs
+            return None
+        if isinstance(e, ast.BinOp) and isinstance(e.op, ast.Add):
+            a, ta, ga = self.expr(e.left, env)
+            if ta[0] == "list":
+                b, tb, gb = self.expr(e.right, env)
+                if ta != tb: bad(e, "list + of different types")
+                return "(%s ++ %s)" % (a, b), ta, ga + gb
+            return None
+        if isinstance(e, ast.ListComp):
+            if len(e.generators) != 1 or e.generators[0].ifs or e.generators[0].is_async or not isinstance(e.generators[0].target, ast.Name):
+                bad(e, "list comprehension shape")
+            gen = e.generators[0]
+            x = gen.target.id
+            it, tit, git = self.iterable(gen.iter, env)
+            if tit[0] != "list": bad(e, "comprehension over a non-list")
+            if x in self.vars or x in self.params: bad(e, "comprehension variable %s shadows a local" % x)
+            self.vars[x] = tit[1]
+            try:
+                c, t, g = self.expr(gen and e.elt, env | {x})
+            finally:
+                del self.vars[x]
+            gs = git + [("(forallb (fun v_%s => %s) %s)" % (x, gb, it), o) for gb, o in g]
+            return "(map (fun v_%s => %s) %s)" % (x, c, it), T_list(t), gs
+        return None
+
+    def module_call(self, e):
+        if isinstance(e, ast.Call) and isinstance(e.func, ast.Name) and e.func.id in self.tr.fns and not e.keywords:
+            fn = self.tr.fns[e.func.id]
+            if fn.pure: return None
+            return fn
+        return None
+
+    def method_call(self, e):
+        fn = self.module_call(e)
+        if fn is None: return None
+        if len(e.args) != len(fn.params): bad(e, "arity")
+        cs = []
+        for a, (pn, pt) in zip(e.args, fn.params.items()):
+            c, t, g = self.expr(a, set(self.vars) | set(self.params))
+            if t != pt or g: bad(a, "argument of a call must be an unguarded %r" % (pt,))
+            cs.append(c)
+        return " ".join(cs), fn
+
+    def stmt_extra(self, s, rest, env, k):
+        # x.append(e)
+        if isinstance(s, ast.Expr) and isinstance(s.value, ast.Call) and isinstance(s.value.func, ast.Attribute) and s.value.func.attr == "append" \
+           and isinstance(s.value.func.value, ast.Name) and len(s.value.args) == 1 and not s.value.keywords:
+            x = s.value.func.value.id
+            if x not in env or self.vars[x][0] != "list": bad(s, "append to a non-list")
+            c, t, g = self.expr(s.value.args[0], env)
+            if t != self.vars[x][1]: bad(s, "append of another type")
+            return self.guard(g, "(let v_%s := (v_%s ++ [%s]) in %s)" % (x, x, c, self.block(rest, env, k)))
+        return None
+
+    def block(self, stmts, env, k):
+        # typed empty list: a_ops: list[PauliString] = []
+        if stmts and isinstance(stmts[0], ast.AnnAssign) and isinstance(stmts[0].target, ast.Name) and isinstance(stmts[0].value, ast.List) and not stmts[0].value.elts:
+            s = stmts[0]
+            t = self.ann_type(s.annotation, s)
+            self.declare(s.target.id, t, s)
+            return "(let v_%s : %s := [] in %s)" % (s.target.id, coq_type(t), Fn.block(self, stmts[1:], env | {s.target.id}, k))
+        return Fn.block(self, stmts, env, k)
+
+    def prepare(self):
+        node = self.node
+        if node.args.vararg or node.args.kwarg or node.args.kwonlyargs or node.decorator_list or node.args.defaults:
+            bad(node, "signature")
+        body = [s for s in node.body if not (isinstance(s, ast.Expr) and isinstance(s.value, ast.Constant))]
+        self.ann = {}
+        self.pure = False
+        if len(body) == 1 and isinstance(body[0], ast.Return) and self.module_call(body[0].value) is None:
+            c, t, g = self.expr(body[0].value, set())
+            self.pure = not g
+
+    def emit(self):
+        self.prepare()
+        body = self.node.body
+        ps = " ".join("(v_%s : %s)" % (n, coq_type(t)) for n, t in self.params.items())
+        if self.pure:
+            ret = [s for s in body if isinstance(s, ast.Return)][0]
+            c, t, g = self.expr(ret.value, set())
+            self.ret = t
+            return "Definition %s %s : %s := %s." % (self.coq, ps, coq_type(t), c)
+        self.block(body, set(), None)
+        term = self.block(body, set(), None)
+        if self.ret is None: bad(self.node, "no return type")
+        inits = "".join("let v_%s : %s := %s in " % (v, coq_type(t), default(t, self.tr.enums)) for v, t in self.vars.items() if v not in self.params)
+        return ("(* %s, lines %d-%d; state = (%s) *)\nDefinition %s %s : fres %s :=\n  %s@finish %s _ (%s)." % (
+            self.name, self.node.lineno, self.node.end_lineno, ", ".join(self.vars), self.coq, ps, coq_type(self.ret), inits, self.state_type(), term))
+
+
+class CompTranslator:
+    """the builders of the universal generating set in application/pauli_compiler.py"""
+    WANT = ["_tensor", "left_a_minimal", "choose_u_for_b", "construct_universal_set"]
+    def __init__(self, repo):
+        self.path = os.path.join(repo, "src", "paulie", "application", "pauli_compiler.py")
+        src = open(self.path, newline=None, encoding="utf-8-sig").read()
+        self.tree = ast.parse(src)
+        self.enums, self.exns, self.fns = {}, [], {}
+        self.defs = {n.name: n for n in self.tree.body if isinstance(n, ast.FunctionDef)}
+        imp = [ast.unparse(n) for n in self.tree.body if isinstance(n, ast.ImportFrom)]
+        if "from paulie.common.pauli_string_factory import get_identity, get_pauli_string, get_single" not in imp:
+            raise Unsupported("pauli_compiler.py no longer imports get_identity, get_pauli_string, get_single from the factory")
+        # the factory primitives themselves: their source text is pinned (their contracts are what the translation trusts)
+        fac = ast.parse(open(os.path.join(repo, "src", "paulie", "common", "pauli_string_factory.py"), newline=None, encoding="utf-8-sig").read())
+        fdefs = {n.name: n for n in fac.body if isinstance(n, ast.FunctionDef)}
+        def body_of(n):
+            return [ast.unparse(s) for s in n.body if not (isinstance(s, ast.Expr) and isinstance(s.value, ast.Constant))]
+        if body_of(fdefs.get("get_identity", ast.parse("def f(): pass").body[0])) != ["return PauliString(n=n)"]:
+            raise Unsupported("factory.get_identity is no longer `return PauliString(n=n)`")
+        if body_of(fdefs.get("get_single", ast.parse("def f(): pass").body[0])) != ["p = get_identity(n)", "p[i] = label", "return p"]:
+            raise Unsupported("factory.get_single is no longer identity with one site assigned")
+
+    def run(self):
+        out = ["(* GENERATED by tools/py2coq.py from src/paulie/application/pauli_compiler.py — do not edit *)",
+               "From PauLieRefine Require Import PySem.", "From PauLie Require Import Pauli Compiler.", "Open Scope Z_scope.", ""]
+        for name in self.WANT:
+            node = self.defs.get(name)
+            if node is None:
+                raise Unsupported("%s not found in the source" % name)
+            f = ModFn(self, node)
+            out.append(f.emit()); out.append("")
+            self.fns[name] = f
+        return "\n".join(out)
+
+
+class PSFn(ModFn):
+    """a method of PauliString (common/pauli_string_bitarray.py) on the object (bits, bits_even, bits_odd) = Model/PauliBits.obj.
+    Contracts of the bitarray library and of the constructor (trusted, pinned where they are source text of this repo):
+    count_and(a, b) = number of positions where both are set; a ^ b = bitwise xor, ValueError on unequal lengths; len; bitarray(n) = n zeros;
+    a == b = same bits; PauliString(bits=X) = the object freshly built from X (bits copied, even/odd views sliced);
+    self._ensure_pauli_string(o) = o for a PauliString argument; (-1j) ** e for e in 0..3 = the Gaussian integer mi_pow e."""
+    def __init__(self, tr, node):
+        Fn.__init__(self, tr, "PauliString", node)
+        self.coq = "py_PS_" + node.name.strip("_")
+        self.params = {}
+        args = node.args.args
+        if not args or args[0].arg != "self": bad(node, "method without self")
+        self.params["self"] = OBJ
+        for a in args[1:]:
+            txt = ast.unparse(a.annotation) if a.annotation is not None else None
+            if txt in ("object", "'PauliString'", "PauliString", "Self"): self.params[a.arg] = OBJ
+            else: bad(a, "parameter annotation %r" % txt)
+        self.self_t = None
+
+    def field(self, e):
+        if isinstance(e, ast.Attribute) and e.attr in ("bits", "bits_even", "bits_odd") and isinstance(e.value, ast.Name):
+            return {"bits": "obits", "bits_even": "oeven", "bits_odd": "oodd"}[e.attr]
+        return None
+
+    def expr_extra(self, e, env):
+        f = self.field(e)
+        if f is not None:
+            c, t, g = self.expr(e.value, env)
+            if t != OBJ: bad(e, "field of a non-PauliString")
+            return "(%s %s)" % (f, c), BITS, g
+        if isinstance(e, ast.Call):
+            fn_ = e.func
+            if isinstance(fn_, ast.Name) and fn_.id == "count_and" and len(e.args) == 2 and not e.keywords:
+                a, ta, ga = self.expr(e.args[0], env); b, tb, gb = self.expr(e.args[1], env)
+                if ta != BITS or tb != BITS: bad(e, "count_and of non-bitarrays")
+                return "(count_and %s %s)" % (a, b), Z, ga + gb
+            if isinstance(fn_, ast.Name) and fn_.id == "bitarray" and len(e.args) == 1 and not e.keywords:
+                c, t, g = self.expr(e.args[0], env)
+                if t != Z: bad(e, "bitarray of non-int")
+                return "(repeat false (Z.to_nat %s))" % c, BITS, g
+            if isinstance(fn_, ast.Name) and fn_.id == "len" and len(e.args) == 1 and not e.keywords:
+                c, t, g = self.expr(e.args[0], env)
+                if t == BITS: return "(Z.of_nat (length %s))" % c, Z, g
+                if t == OBJ:
+                    ln = self.tr.fns.get("__len__")
+                    if ln is None or not ln.pure: bad(e, "len() of a PauliString needs a translated pure __len__")
+                    return "(%s %s)" % (ln.coq, c), Z, g
+                bad(e, "len")
+            if isinstance(fn_, ast.Name) and fn_.id == "PauliString" and not e.args and len(e.keywords) == 1 and e.keywords[0].arg == "bits":
+                c, t, g = self.expr(e.keywords[0].value, env)
+                if t != BITS: bad(e, "PauliString(bits=...) of a non-bitarray")
+                return "(fresh_bits %s)" % c, OBJ, g
+            if isinstance(fn_, ast.Attribute) and fn_.attr == "_ensure_pauli_string" and isinstance(fn_.value, ast.Name) and fn_.value.id == "self" and len(e.args) == 1:
+                c, t, g = self.expr(e.args[0], env)
+                if t != OBJ: bad(e, "_ensure_pauli_string of a non-PauliString")
+                return c, OBJ, g
+            m = self.method_call(e)
+            if m is not None:
+                args, fn = m
+                if fn.pure: return "(%s %s)" % (fn.coq, args), fn.ret, []
+                bad(e, "call of %s inside an expression" % fn.name)
+            return None
+        if isinstance(e, ast.BinOp):
+            if isinstance(e.op, ast.BitXor):
+                a, ta, ga = self.expr(e.left, env); b, tb, gb = self.expr(e.right, env)
+                if ta != BITS or tb != BITS: bad(e, "^ of non-bitarrays")
+                return "(bxor %s %s)" % (a, b), BITS, ga + gb + [("(Nat.eqb (length %s) (length %s))" % (a, b), "Raised (EUser \"ValueError\"%string)")]
+            if isinstance(e.op, ast.Mod) and isinstance(e.right, ast.Constant) and isinstance(e.right.value, int) and e.right.value > 0:
+                a, ta, ga = self.expr(e.left, env)
+                if ta != Z: bad(e, "% of non-int")
+                return "(%s mod %d)" % (a, e.right.value), Z, ga
+            if isinstance(e.op, ast.Pow) and ast.dump(e.left) == ast.dump(ast.parse("(-1j)", mode="eval").body):
+                c, t, g = self.expr(e.right, env)
+                if t != Z: bad(e, "complex power")
+                return "(mi_pow %s)" % c, GI, g
+            return None
+        if isinstance(e, ast.UnaryOp) and isinstance(e.op, ast.USub) and isinstance(e.operand, ast.Constant) and isinstance(e.operand.value, int) and not isinstance(e.operand.value, bool):
+            return "(-%d)" % e.operand.value, Z, []
+        if isinstance(e, ast.Compare) and len(e.ops) == 1 and isinstance(e.ops[0], ast.Eq):
+            a, ta, ga = self.expr(e.left, env)
+            if ta == BITS:
+                b, tb, gb = self.expr(e.comparators[0], env)
+                if tb != BITS: bad(e, "== of a bitarray with something else")
+                return "(bits_eqb %s %s)" % (a, b), B, ga + gb
+            return None
+        return None
+
+    def expr(self, e, env):
+        if isinstance(e, (ast.Compare, ast.UnaryOp, ast.Attribute)):
+            x = self.expr_extra(e, env)
+            if x is not None:
+                return x
+        return Fn.expr(self, e, env)
+
+    def method_call(self, e):
+        if isinstance(e, ast.Call) and isinstance(e.func, ast.Attribute) and isinstance(e.func.value, ast.Name) and not e.keywords \
+           and e.func.attr in self.tr.fns and e.func.attr != "_ensure_pauli_string":
+            fn = self.tr.fns[e.func.attr]
+            scope = set(self.vars) | set(self.params)
+            o, to, go = self.expr(e.func.value, scope)
+            if to != OBJ or len(e.args) != len(fn.params) - 1: bad(e, "method call shape")
+            cs = [o]
+            for a in e.args:
+                c, t, g = self.expr(a, scope)
+                if t != OBJ or g: bad(a, "argument of a method call must be a PauliString")
+                cs.append(c)
+            return " ".join(cs), fn
+        return None
+
+    def module_call(self, e):
+        m = self.method_call(e)
+        return None if m is None or m[1].pure else m[1]
+
+
+class PSTranslator:
+    WANT = ["__len__", "__eq__", "sign", "complex_conj", "commutes_with", "multiply", "adjoint_map", "__or__", "__xor__", "__matmul__", "is_identity"]
+    def __init__(self, repo):
+        self.path = os.path.join(repo, "src", "paulie", "common", "pauli_string_bitarray.py")
+        self.tree = ast.parse(open(self.path, newline=None, encoding="utf-8-sig").read())
+        self.enums, self.exns, self.fns = {}, [], {}
+        cls = [n for n in self.tree.body if isinstance(n, ast.ClassDef) and n.name == "PauliString"]
+        if len(cls) != 1: raise Unsupported("class PauliString not found")
+        self.defs = {f.name: f for f in cls[0].body if isinstance(f, ast.FunctionDef)}
+        # pinned source text of the constructor's view bookkeeping and of _ensure_pauli_string (the contracts above)
+        init = [ast.unparse(s) for s in ast.walk(self.defs["__init__"]) if isinstance(s, ast.Assign)]
+        for need in ("self.bits = bits.copy()", "self.bits_even = self.bits[::2]", "self.bits_odd = self.bits[1::2]"):
+            if need not in init: raise Unsupported("PauliString.__init__ no longer contains `%s`" % need)
+        ens = [ast.unparse(s) for s in self.defs["_ensure_pauli_string"].body if not (isinstance(s, ast.Expr) and isinstance(s.value, ast.Constant))]
+        if ens != ["return other if isinstance(other, PauliString) else PauliString(pauli_str=str(other))"]:
+            raise Unsupported("_ensure_pauli_string is no longer the identity on PauliString arguments")
+
+    def run(self):
+        out = ["(* GENERATED by tools/py2coq.py from src/paulie/common/pauli_string_bitarray.py — do not edit *)",
+               "From PauLieRefine Require Import PySem.", "From PauLie Require Import Pauli PauliBits.", "Open Scope Z_scope.", ""]
+        for name in self.WANT:
+            node = self.defs.get(name)
+            if node is None: raise Unsupported("PauliString.%s not found in the source" % name)
+            f = PSFn(self, node)
+            out.append(f.emit()); out.append("")
+            self.fns[name] = f
+        return "\n".join(out)
+
+
 def main():
     repo, dst = sys.argv[1], sys.argv[2]
-    path = os.path.join(repo, "src", "paulie", "classifier", "classification.py")
+    which = sys.argv[3] if len(sys.argv) > 3 else "classification"
+    path = os.path.join(repo, "src", "paulie", {"classification": "classifier/classification.py", "compiler": "application/pauli_compiler.py", "pstring": "common/pauli_string_bitarray.py"}[which])
     try:
-        text = Translator(path).run()
+        text = Translator(path).run() if which == "classification" else (CompTranslator(repo).run() if which == "compiler" else PSTranslator(repo).run())
     except Unsupported as e:
         print("py2coq: cannot translate %s: %s" % (path, e)); sys.exit(3)
     with open(dst, "w") as f:
